@@ -13,6 +13,7 @@ import (
 	"fmt"
 	"os"
 	"path/filepath"
+	"runtime/pprof"
 	"sort"
 	"strconv"
 	"sync"
@@ -100,6 +101,21 @@ func Start(prop, rule string) *Run {
 	r.outDir = os.Getenv("VERIF_OUT")
 	if r.outDir == "" {
 		r.outDir = os.TempDir()
+	}
+	if hp := os.Getenv("VERIF_HEAPPROF"); hp != "" { // development aid: heap profile every 20 s
+		go func() {
+			for i := 0; ; i++ {
+				time.Sleep(20 * time.Second)
+				if f, err := os.Create(fmt.Sprintf("%s.%d", hp, i%2)); err == nil {
+					_ = pprof.WriteHeapProfile(f)
+					f.Close()
+				}
+				if f, err := os.Create(fmt.Sprintf("%s.goroutines.%d", hp, i%2)); err == nil {
+					_ = pprof.Lookup("goroutine").WriteTo(f, 1)
+					f.Close()
+				}
+			}
+		}()
 	}
 	r.only = os.Getenv("VERIF_ONLY_CASE")
 	if p := os.Getenv("VERIF_REPLAY"); p != "" {
